@@ -83,6 +83,29 @@ fn one_stream(ctx: &Ctx, acc: &mut Acc, l: L, lang: &text2num::Language, syms: &
             }
         }
     }
+    // clause 2b: the same on the TEXT path (tokenizer, annotation): a text the validator accepts — a lone hyphen
+    // between blanks included — is seen there as exactly one number with the same digits. Ambiguity words are left
+    // out: the annotation of the text path sets them aside by design.
+    if !hinted && syms.iter().any(|w| *w == "-") && syms.iter().all(|w| *w == "-" || w.chars().any(|c| c.is_alphanumeric())) {
+        let text = syms.join(" ");
+        acc.traces += 1;
+        let v = t2d(&text, lang);
+        if let Some(d) = v.strip_prefix("Ok(").and_then(|x| x.strip_suffix(')')) {
+            if let Ok((_, tocc)) = guard(|| stream::find_in_text(&text, lang, 0.0)) {
+                if !(tocc.len() == 1 && tocc[0].text == d) {
+                    ctx.report(acc, Violation {
+                        lang: l.code().into(),
+                        entry: "text2digits".into(),
+                        input: text.clone(),
+                        threshold: Some(0.0),
+                        clause: "validate(p) = Ok(d) => scan(text p, 0) = [one occurrence with text d]".into(),
+                        expected: format!("text scanner: exactly one occurrence with text {d}"),
+                        observed: format!("validate = Ok({d}); scan = {}", stream::show_occs(&tocc)),
+                    });
+                }
+            }
+        }
+    }
     // clause 3: at threshold 0 every word that is a number on its own lies inside an occurrence
     for (i, t) in toks.iter().enumerate() {
         if occs.iter().any(|o| o.start <= i && i < o.end) || !t.text.chars().any(|c| c.is_alphanumeric()) {
